@@ -7,9 +7,9 @@
      parse_num        cue/literal/num.go  ParseNum / next / scanMantissa / scanNumber
                       (decimal path complete; other bases accepted without value; the
                       multiplier suffixes K M G T P answer PNOther).
-     apd_set_string   cockroachdb/apd Decimal.setString + setExponent under BaseContext
-                      (third-party, modelled): exponents outside [-100000, 100000] leave
-                      the exponent at 0, exponent text outside int32 makes the value NaN.
+     apd_set_string   NumInfo.decimal over cockroachdb/apd Context.SetString (setString +
+                      setExponent under BaseContext; third-party, modelled): an exponent outside
+                      [-100000, 100000] or an exponent text outside int32 is an error.
      cue_neg          apd Decimal.Neg (adt.UnaryExpr SubtractOp).
      format_G         apd Decimal.Append(buf, 'G') (cue/types.go appendJSON for numbers).
    Go's partial operations: the only index that could be out of range on this
@@ -303,8 +303,6 @@ Definition parse_num (t : bytes) : pnres :=
 
 (* ------------------------------------------------------------ apd ---- *)
 
-Inductive cdec := CFin (d : dec) | CNaN.
-
 Fixpoint split_at (c : N) (s : bytes) : bytes * option bytes :=
   match s with
   | [] => ([], None)
@@ -331,55 +329,60 @@ Definition parse_int32 (s : bytes) : option Z :=
 
 Definition max_exponent : Z := 100000.
 
-(* Decimal.setExponent(c, unknownNumDigits, 0, xs...) under BaseContext, for a
-   Decimal whose Exponent was reset to 0: the resulting Exponent *)
-Definition set_exponent (coeff : N) (xs : list Z) : Z :=
+(* Decimal.setExponent(c, unknownNumDigits, 0, xs...) inside setString under BaseContext:
+   None = SystemOverflow/SystemUnderflow (an exponent, or the adjusted exponent, is outside
+   [-100000, 100000]); Context.SetString turns that into an error WITHOUT condition. *)
+Definition set_exponent (coeff : N) (xs : list Z) : option Z :=
   if forallb (fun x => (x <=? max_exponent)%Z && (- max_exponent <=? x)%Z) xs then
     let sum := fold_left Z.add xs 0%Z in
     let nd := Z.of_nat (length (N_digits coeff)) in
     let adj := (sum + nd - 1)%Z in
-    if ((adj <=? max_exponent) && (- max_exponent <=? adj))%Z then sum else 0%Z
-  else 0%Z.
+    if ((adj <=? max_exponent) && (- max_exponent <=? adj))%Z then Some sum else None
+  else None.
 
-(* Decimal.UnmarshalText(buf) for the texts ParseNum builds (digits . e + -) *)
-Definition apd_set_string (buf : bytes) : cdec :=
+(* NumInfo.decimal, base 10, no multiplier (after the fix of finding C10-exponent-range):
+   v.SetString(buf); an error without condition - the text is not a number for apd, the
+   exponent text does not fit int32, or an exponent is out of apd's range - is returned
+   (None); an error WITH a condition (the rounding step at precision 0 complaining about the
+   summed exponent field) is ignored as before and the decimal holds the number as written. *)
+Definition apd_set_string (buf : bytes) : option dec :=
   let '(neg, s) :=
     match buf with
     | c :: r => if c =? 45 then (true, r) else if c =? 43 then (false, r) else (false, buf)
     | [] => (false, buf)
     end in
-  if match s with c :: _ => (c =? 45) || (c =? 43) | [] => false end then CNaN else
+  if match s with c :: _ => (c =? 45) || (c =? 43) | [] => false end then None else
   let '(mant, eopt) := split_at 101 s in
   match (match eopt with
          | None => Some []
          | Some et => match parse_int32 et with Some z => Some [z] | None => None end
          end) with
-  | None => CNaN
+  | None => None
   | Some exps1 =>
     let '(ip, fopt) := split_at 46 mant in
     let digits := ip ++ match fopt with Some f => f | None => [] end in
     let exps := exps1 ++ match fopt with Some f => [(- Z.of_nat (length f))%Z] | None => [] end in
     match digits with
-    | [] => CNaN
+    | [] => None
     | _ =>
       if forallb is_digit digits then
         let coeff := digits_val digits in
-        CFin {| dneg := neg; dcoeff := coeff; dexp := set_exponent coeff exps |}
-      else CNaN
+        match set_exponent coeff exps with
+        | Some e => Some {| dneg := neg; dcoeff := coeff; dexp := e |}
+        | None => None
+        end
+      else None
     end
   end.
 
 (* Decimal.Neg *)
-Definition cue_neg (d : cdec) : cdec :=
-  match d with
-  | CFin x => CFin {| dneg := if dcoeff x =? 0 then false else negb (dneg x);
-                      dcoeff := dcoeff x; dexp := dexp x |}
-  | CNaN => CNaN
-  end.
+Definition cue_neg (x : dec) : dec :=
+  {| dneg := if dcoeff x =? 0 then false else negb (dneg x); dcoeff := dcoeff x; dexp := dexp x |}.
 
 (* how a JSON number text is read once it is CUE source: an optional unary
-   minus applied to a number literal.  Result: (is_int, value). *)
-Definition cue_read_number (t : bytes) : option (bool * cdec) :=
+   minus applied to a number literal.  Result: (is_int, value); None = the
+   compiler reports an error (not a literal, or NumInfo.decimal failed). *)
+Definition cue_read_number (t : bytes) : option (bool * dec) :=
   let '(minus, u) :=
     match t with
     | c :: r => if c =? 45 then (true, r) else (false, t)
@@ -388,8 +391,10 @@ Definition cue_read_number (t : bytes) : option (bool * cdec) :=
   match parse_num u with
   | PNOk base isf buf =>
     if base =? 10 then
-      let d := apd_set_string buf in
-      Some (negb isf, if minus then cue_neg d else d)
+      match apd_set_string buf with
+      | Some d => Some (negb isf, if minus then cue_neg d else d)
+      | None => None
+      end
     else None
   | _ => None
   end.
